@@ -30,7 +30,9 @@ def gen(r, k, thorough):
     dup_seed = r.randrange(100, 200)
     for i in range(n):
         path = "/c%d/a%d.bin" % (k, i)
-        kind = r.choice(["ok", "ok", "ok", "gz", "chunked", "404", "500then200", "503", "cf", "dup", "dup", "empty", "204", "403", "slow", "big503"])
+        kind = r.choice(["ok", "ok", "ok", "gz", "chunked", "404", "500then200", "503", "cf", "dup", "dup", "empty", "204", "403", "slow", "big503", "bigtext", "bigbin"])
+        if k == 0 and i < 2:
+            kind = ["bigbin", "bigtext"][i]      # always: one large binary next to small requisites fetched concurrently, one text body over the spool threshold
         size = r.choice(SIZES + ([2 * 1024 * 1024 - 1, 2 * 1024 * 1024, 2 * 1024 * 1024 + 1] if thorough and r.random() < 0.3 else []))
         body = {"kind": r.choice(["bin", "text", "png"]), "size": size, "seed": i + 17 * k}
         p = {"ctype": r.choice(["application/octet-stream", "text/plain", "image/png", "application/json"]), "body": body}
@@ -57,11 +59,20 @@ def gen(r, k, thorough):
             p["status"] = 403
         elif kind == "slow":
             p["slowMs"] = 300
+        elif kind == "bigtext":
+            # a text body larger than the 2 MiB the crawler keeps in memory for post-processing
+            p["ctype"] = r.choice(["text/html", "text/plain", "application/json"])
+            p["body"] = {"kind": "text", "size": r.choice([2 * 1024 * 1024 + 4096, 3000000]), "seed": 9}
+        elif kind == "bigbin":
+            p["ctype"] = "application/octet-stream"
+            p["body"] = {"kind": "bin", "size": 16000000 if thorough else 9000000, "seed": 11}
         elif kind == "big503":
             p["status"] = 503
             p["body"] = {"kind": "bin", "size": 40000000 if thorough else 12000000, "seed": 5}
         site[path] = p
         assets.append(path)
+    if k == 0:
+        cfg["maxConcurrentAssets"] = 4
     site["/c%d/" % k] = {"ctype": "text/html", "body": {"kind": "html", "assets": assets, "outlinks": [], "pad": r.choice([0, 0, 1900, 2100])}}
     return {"useHQ": True, "snapshotAtAck": True, "seeds": ["/c%d/" % k], "site": site, "cfg": cfg, "stop": {"when": "drain", "timeoutMs": 90000}}
 
